@@ -146,34 +146,34 @@ theorem ext_cellAt {a b : Cells α} (hl : a.length = b.length)
 /-- arrays that agree below `index` -/
 def AgreeBelow (index : Nat) (a b : Cells α) : Prop := ∀ k, k < index → cellAt b k = cellAt a k
 
-/-- dereferencing `r` yields the live value `y` in every array that agrees with `a` below `index`, and (for a
-    move iterator) `r` is not an element of the array -/
-def Good (mv : Bool) (index : Nat) (a : Cells α) (r : Ref α) (y : α) : Prop :=
-  (∀ b, AgreeBelow index a b → r.read b = .live y) ∧ (mv = true → ∃ c, r = .ext c)
+/-- dereferencing `r` yields the cell `v` in every array that agrees with `a` below `index`, and (for a move
+    iterator) `r` is not an element of the array -/
+def Good (mv : Bool) (index : Nat) (a : Cells α) (r : Ref α) (v : Cell α) : Prop :=
+  (∀ b, AgreeBelow index a b → r.read b = v) ∧ (mv = true → ∃ c, r = .ext c)
 
-def GoodAll (mv : Bool) (index : Nat) (a : Cells α) : List (Ref α) → List α → Prop
+def GoodAll (mv : Bool) (index : Nat) (a : Cells α) : List (Ref α) → Cells α → Prop
   | [], [] => True
-  | r :: rs, y :: ys => Good mv index a r y ∧ GoodAll mv index a rs ys
+  | r :: rs, v :: vs => Good mv index a r v ∧ GoodAll mv index a rs vs
   | _, _ => False
 
 theorem GoodAll.length_eq {mv : Bool} {index : Nat} {a : Cells α} :
-    ∀ {rs : List (Ref α)} {ys : List α}, GoodAll mv index a rs ys → rs.length = ys.length
+    ∀ {rs : List (Ref α)} {vs : Cells α}, GoodAll mv index a rs vs → rs.length = vs.length
   | [], [], _ => rfl
-  | _ :: rs, _ :: ys, h => by simp [GoodAll.length_eq h.2]
+  | _ :: rs, _ :: vs, h => by simp [GoodAll.length_eq h.2]
   | [], _ :: _, h => by simp [GoodAll] at h
   | _ :: _, [], h => by simp [GoodAll] at h
 
 theorem GoodAll.drop {mv : Bool} {index : Nat} {a : Cells α} :
-    ∀ (d : Nat) {rs : List (Ref α)} {ys : List α}, GoodAll mv index a rs ys → GoodAll mv index a (rs.drop d) (ys.drop d)
+    ∀ (d : Nat) {rs : List (Ref α)} {vs : Cells α}, GoodAll mv index a rs vs → GoodAll mv index a (rs.drop d) (vs.drop d)
   | 0, _, _, h => by simpa using h
   | _+1, [], [], _ => by simp [GoodAll]
-  | d+1, _ :: rs, _ :: ys, h => by simpa using GoodAll.drop d h.2
+  | d+1, _ :: rs, _ :: vs, h => by simpa using GoodAll.drop d h.2
   | _+1, [], _ :: _, h => by simp [GoodAll] at h
   | _+1, _ :: _, [], h => by simp [GoodAll] at h
 
-theorem assignFrom_good (keeps mv : Bool) (index : Nat) (a b : Cells α) (r : Ref α) (y : α) (i : Nat)
-    (hg : Good mv index a r y) (hb : AgreeBelow index a b) :
-    assignFrom keeps mv b r i = b.set i (.live y) := by
+theorem assignFrom_good (keeps mv : Bool) (index : Nat) (a b : Cells α) (r : Ref α) (v : Cell α) (i : Nat)
+    (hg : Good mv index a r v) (hb : AgreeBelow index a b) :
+    assignFrom keeps mv b r i = b.set i v := by
   unfold assignFrom
   cases mv with
   | false => simp [hg.1 b hb]
@@ -183,9 +183,9 @@ theorem assignFrom_good (keeps mv : Bool) (index : Nat) (a b : Cells α) (r : Re
     simp [Ref.read] at this
     simp [this]
 
-theorem addBackFrom_good (keeps mv : Bool) (index : Nat) (a b : Cells α) (r : Ref α) (y : α)
-    (hg : Good mv index a r y) (hb : AgreeBelow index a b) :
-    addBackFrom keeps mv b r = b ++ [.live y] := by
+theorem addBackFrom_good (keeps mv : Bool) (index : Nat) (a b : Cells α) (r : Ref α) (v : Cell α)
+    (hg : Good mv index a r v) (hb : AgreeBelow index a b) :
+    addBackFrom keeps mv b r = b ++ [v] := by
   unfold addBackFrom
   cases mv with
   | false => simp [hg.1 b hb]
@@ -203,22 +203,22 @@ theorem agree_append (index : Nat) (a b c : Cells α) (hb : AgreeBelow index a b
     AgreeBelow index a (b ++ c) := by
   intro k hk; rw [cellAt_append_left _ _ _ (by omega)]; exact hb k hk
 
-/-- loop3R writes the values `ys` to `[i, i + |ys|)` -/
+/-- loop3R writes the values `vs` to `[i, i + |vs|)` -/
 theorem loop3R_spec (keeps mv : Bool) (index : Nat) (a : Cells α) :
-    ∀ (rs : List (Ref α)) (ys : List α) (b : Cells α) (i : Nat), GoodAll mv index a rs ys → AgreeBelow index a b →
+    ∀ (rs : List (Ref α)) (vs : Cells α) (b : Cells α) (i : Nat), GoodAll mv index a rs vs → AgreeBelow index a b →
       index ≤ i → i + rs.length ≤ b.length →
       (loop3R keeps mv rs b i).length = b.length ∧
       (∀ k, k < i → cellAt (loop3R keeps mv rs b i) k = cellAt b k) ∧
-      (∀ k, i ≤ k → k < i + rs.length → cellAt (loop3R keeps mv rs b i) k = cellAt (ys.map Cell.live) (k - i)) ∧
+      (∀ k, i ≤ k → k < i + rs.length → cellAt (loop3R keeps mv rs b i) k = cellAt vs (k - i)) ∧
       (∀ k, i + rs.length ≤ k → cellAt (loop3R keeps mv rs b i) k = cellAt b k)
   | [], [], b, i, _, _, _, _ => by
     refine ⟨rfl, fun _ _ => rfl, ?_, fun _ _ => rfl⟩
     intro k h1 h2; simp at h2; omega
-  | r :: rs, y :: ys, b, i, hg, hb, hi, hl => by
+  | r :: rs, v :: vs, b, i, hg, hb, hi, hl => by
     simp only [List.length_cons] at hl ⊢
     simp only [loop3R]
-    rw [assignFrom_good keeps mv index a b r y i hg.1 hb]
-    obtain ⟨l, p1, p2, p3⟩ := loop3R_spec keeps mv index a rs ys (b.set i (.live y)) (i+1) hg.2
+    rw [assignFrom_good keeps mv index a b r v i hg.1 hb]
+    obtain ⟨l, p1, p2, p3⟩ := loop3R_spec keeps mv index a rs vs (b.set i v) (i+1) hg.2
       (agree_set index a b i _ hb hi) (by omega) (by simp; omega)
     refine ⟨by rw [l]; simp, ?_, ?_, ?_⟩
     · intro k hk; rw [p1 k (by omega), cellAt_set_ne _ _ _ _ (by omega)]
@@ -229,46 +229,46 @@ theorem loop3R_spec (keeps mv : Bool) (index : Nat) (a : Cells α) :
         simp [cellAt_cons_zero]
       · rw [p2 k (by omega) (by omega)]
         have : k - i = (k - (i + 1)) + 1 := by omega
-        rw [this]; simp [cellAt_cons_succ]
+        rw [this, cellAt_cons_succ]
     · intro k hk; rw [p3 k (by omega), cellAt_set_ne _ _ _ _ (by omega)]
   | [], _ :: _, _, _, hg, _, _, _ => by simp [GoodAll] at hg
   | _ :: _, [], _, _, hg, _, _, _ => by simp [GoodAll] at hg
 
 /-- loopAR appends the values -/
 theorem loopAR_spec (keeps mv : Bool) (index : Nat) (a : Cells α) :
-    ∀ (rs : List (Ref α)) (ys : List α) (b : Cells α), GoodAll mv index a rs ys → AgreeBelow index a b →
-      index ≤ b.length → loopAR keeps mv rs b = b ++ ys.map Cell.live
+    ∀ (rs : List (Ref α)) (vs : Cells α) (b : Cells α), GoodAll mv index a rs vs → AgreeBelow index a b →
+      index ≤ b.length → loopAR keeps mv rs b = b ++ vs
   | [], [], b, _, _, _ => by simp [loopAR]
-  | r :: rs, y :: ys, b, hg, hb, hi => by
+  | r :: rs, v :: vs, b, hg, hb, hi => by
     simp only [loopAR]
-    rw [addBackFrom_good keeps mv index a b r y hg.1 hb,
-      loopAR_spec keeps mv index a rs ys _ hg.2 (agree_append index a b _ hb hi) (by simp; omega)]
+    rw [addBackFrom_good keeps mv index a b r v hg.1 hb,
+      loopAR_spec keeps mv index a rs vs _ hg.2 (agree_append index a b _ hb hi) (by simp; omega)]
     simp
   | [], _ :: _, _, hg, _, _ => by simp [GoodAll] at hg
   | _ :: _, [], _, hg, _, _ => by simp [GoodAll] at hg
 
 /-- loopBR: `c` steps from `i`: old cells `[i, i+c)` go to the end, the values take their place -/
 theorem loopBR_spec (keeps mv : Bool) (index : Nat) (a : Cells α) :
-    ∀ (c : Nat) (rs : List (Ref α)) (ys : List α) (b : Cells α) (i : Nat), GoodAll mv index a rs ys →
+    ∀ (c : Nat) (rs : List (Ref α)) (vs : Cells α) (b : Cells α) (i : Nat), GoodAll mv index a rs vs →
       AgreeBelow index a b → index ≤ i → i + c ≤ b.length → c ≤ rs.length →
       (loopBR keeps mv c rs b i).length = b.length + c ∧
       (∀ k, k < i → cellAt (loopBR keeps mv c rs b i) k = cellAt b k) ∧
-      (∀ k, i ≤ k → k < i + c → cellAt (loopBR keeps mv c rs b i) k = cellAt (ys.map Cell.live) (k - i)) ∧
+      (∀ k, i ≤ k → k < i + c → cellAt (loopBR keeps mv c rs b i) k = cellAt vs (k - i)) ∧
       (∀ k, i + c ≤ k → k < b.length → cellAt (loopBR keeps mv c rs b i) k = cellAt b k) ∧
       (∀ k, b.length ≤ k → k < b.length + c → cellAt (loopBR keeps mv c rs b i) k = cellAt b (i + (k - b.length)))
-  | 0, rs, ys, b, i, _, _, _, _, _ => by
+  | 0, rs, vs, b, i, _, _, _, _, _ => by
     have : loopBR keeps mv 0 rs b i = b := by cases rs <;> rfl
     rw [this]
     refine ⟨rfl, fun _ _ => rfl, ?_, fun _ _ _ => rfl, ?_⟩ <;> (intro k h1 h2; omega)
-  | c+1, r :: rs, y :: ys, b, i, hg, hb, hi, hl, hc => by
+  | c+1, r :: rs, v :: vs, b, i, hg, hb, hi, hl, hc => by
     simp only [loopBR]
     have hib : i < b.length := by omega
     have hagree : AgreeBelow index a (addBackMove keeps b i) := by
       intro k hk; rw [cellAt_addBackMove_other keeps b i k (by omega) (by omega)]; exact hb k hk
-    rw [assignFrom_good keeps mv index a _ r y i hg.1 hagree]
-    have hlen : ((addBackMove keeps b i).set i (Cell.live y)).length = b.length + 1 := by
+    rw [assignFrom_good keeps mv index a _ r v i hg.1 hagree]
+    have hlen : ((addBackMove keeps b i).set i v).length = b.length + 1 := by
       simp [addBackMove_length]
-    obtain ⟨l, p1, p2, p3, p4⟩ := loopBR_spec keeps mv index a c rs ys ((addBackMove keeps b i).set i (.live y)) (i+1)
+    obtain ⟨l, p1, p2, p3, p4⟩ := loopBR_spec keeps mv index a c rs vs ((addBackMove keeps b i).set i v) (i+1)
       hg.2 (agree_set index a _ i _ hagree hi) (by omega) (by rw [hlen]; omega) (by simpa using hc)
     refine ⟨by rw [l, hlen]; omega, ?_, ?_, ?_, ?_⟩
     · intro k hk
@@ -280,7 +280,7 @@ theorem loopBR_spec (keeps mv : Bool) (index : Nat) (a : Cells α) :
         simp [cellAt_cons_zero]
       · rw [p2 k (by omega) (by omega)]
         have : k - i = (k - (i + 1)) + 1 := by omega
-        rw [this]; simp [cellAt_cons_succ]
+        rw [this, cellAt_cons_succ]
     · intro k hk1 hk2
       rw [p3 k (by omega) (by rw [hlen]; omega), cellAt_set_ne _ _ _ _ (by omega),
         cellAt_addBackMove_other keeps b i k (by omega) (by omega)]
